@@ -938,8 +938,10 @@ pub fn case_c<T: Sh>(len: usize, ctor: usize, rel: usize, st: &mut SStats) -> R 
 
 pub fn case_str(len: usize, ctor: usize, st: &mut SStats) -> R {
     shadow::reset();
-    let s: String = (0..len).map(|k| (b'a' + (k % 26) as u8) as char).collect();
-    let what = format!("str len={} ctor=S{}", len, ctor);
+    // mixed ASCII / multi-byte characters, `len` characters long
+    let s: String = (0..len).map(|k| ['a', 'é', 'z', '∂', '日', 'q', '😀'][k % 7]).collect();
+    let what = format!("str chars={} bytes={} ctor=S{}", len, s.len(), ctor);
+    let len = s.len();
     let (heap, p, l, relname);
     match ctor {
         0 | 1 => {
@@ -1090,6 +1092,14 @@ pub fn case_a<S: Sh>(ctor: usize, rel: usize, st: &mut SStats) -> R {
         bits_b,
         p
     );
+    #[cfg(feature = "full")]
+    {
+        // unsizing a borrow must keep pointing at the value
+        use unsize::CoerceUnsize;
+        let bd: ArcBorrow<'_, dyn ShDyn> = a.borrow_arc().unsize(unsize::Coercion!(to dyn ShDyn));
+        let bits: (usize, usize) = unsafe { std::mem::transmute_copy(&bd) };
+        ensure!(bits.0 == p, "C11", "ptr", "{}: unsized ArcBorrow<dyn> holds {:#x}, the value lives at {:#x}", what, bits.0, p);
+    }
     let c = a.clone();
     ensure!(
         Arc::as_ptr(&c) as usize == p && c.heap_ptr() as usize == heap,
@@ -1755,6 +1765,24 @@ impl ExactSizeIterator for Liar {
     }
 }
 
+struct LiarU8 {
+    claimed: usize,
+}
+impl Iterator for LiarU8 {
+    type Item = u8;
+    fn next(&mut self) -> Option<u8> {
+        Some(1)
+    }
+    fn size_hint(&self) -> (usize, Option<usize>) {
+        (self.claimed, Some(self.claimed))
+    }
+}
+impl ExactSizeIterator for LiarU8 {
+    fn len(&self) -> usize {
+        self.claimed
+    }
+}
+
 pub fn overflow_cases(st: &mut SStats) -> R {
     let big = isize::MAX as usize;
     let cases: Vec<(&'static str, Box<dyn Fn()>)> = vec![
@@ -1856,6 +1884,33 @@ pub fn overflow_cases(st: &mut SStats) -> R {
         }
         st.counts.bump("shapes.overflow");
         st.cases.insert(hash64(name));
+    }
+    // near-overflow: count + header + padding + elements passes isize::MAX (or even wraps usize)
+    // although the element array alone is representable; every such request must be refused
+    let lens: Vec<usize> = (0..40).map(|k| usize::MAX - k).chain((0..40).map(|j| big - 14 + j)).collect();
+    for len in lens {
+        let probes: Vec<(&'static str, Box<dyn Fn()>)> = vec![
+            ("from_header_and_uninit_slice::<u64,u8>", Box::new(move || drop(UniqueArc::<HeaderSlice<u64, [MaybeUninit<u8>]>>::from_header_and_uninit_slice(7, len)))),
+            ("from_header_and_uninit_slice::<A16,u8>", Box::new(move || drop(UniqueArc::<HeaderSlice<A16, [MaybeUninit<u8>]>>::from_header_and_uninit_slice(A16::gen(1), len)))),
+            ("from_header_and_uninit_slice::<ZA16,u8>", Box::new(move || drop(UniqueArc::<HeaderSlice<ZA16, [MaybeUninit<u8>]>>::from_header_and_uninit_slice(ZA16, len)))),
+            ("new_uninit_slice::<u8>", Box::new(move || drop(Arc::<[MaybeUninit<u8>]>::new_uninit_slice(len)))),
+            ("ThinArc::from_header_and_iter(lying len, u8 elements)", Box::new(move || drop(ThinArc::from_header_and_iter(3u8, LiarU8 { claimed: len })))),
+            ("Arc::from_header_and_iter(u64 header, lying len, u8 elements)", Box::new(move || drop(Arc::from_header_and_iter(3u64, LiarU8 { claimed: len })))),
+        ];
+        for (name, f) in probes {
+            // only requests whose total size exceeds isize::MAX are probed (a representable huge
+            // request would legitimately end in the allocation-error abort)
+            shadow::reset();
+            let r = shadow::tracked(|| catch(|| f()));
+            ensure!(r.is_err(), "C05", "overflow", "{} with length {:#x}: a total size beyond isize::MAX was not refused with a panic", name, len);
+            if shadow::active() {
+                drop(r);
+                let lb = shadow::live_blocks();
+                ensure!(lb.is_empty(), "C05", "overflow", "{} with length {:#x}: a block was allocated and left behind by a refused construction: {:x?}", name, len, &lb[..lb.len().min(2)]);
+            }
+            st.counts.bump("shapes.overflow");
+        }
+        st.cases.insert(hash64(&format!("near-overflow|{}", len)));
     }
     // zero-sized elements: any length is representable
     shadow::reset();
